@@ -353,6 +353,10 @@ pub fn output_side_value(input: &[u8], src: Fmt, u: Unrep, mode: &Mode, path: &s
 /// obtained by serialising the model directly.
 fn direct_write_error(doc: &Val, to: Fmt, k: usize, style: FaultStyle) -> Vec<String> {
     let mut reasons = vec![WRITE_MARK.to_string()];
+    if style == FaultStyle::ZeroLen {
+        // a writer that accepts nothing more reports no error of its own: the cause is std's WriteZero
+        reasons = vec![std::io::Error::from(std::io::ErrorKind::WriteZero).to_string(), "failed to write whole buffer".into()];
+    }
     let w = MonWriter::new().with_fault(k, style);
     let r: Result<Result<(), String>, String> = guarded_any(|| match to {
         Fmt::Json => serde_json::to_writer(w, &SerVal(doc)).map_err(|e| e.to_string()),
@@ -504,7 +508,8 @@ pub fn run(ctx: &Ctx) -> i32 {
                     let step = if clean.out.len() > 600 { clean.out.len() / 300 } else { 1 };
                     let mut k = 0;
                     while k < clean.out.len() {
-                        let style = if k % 2 == 0 { FaultStyle::ShortThenFail } else { FaultStyle::RejectCrossing };
+                        let style = [FaultStyle::ShortThenFail, FaultStyle::RejectCrossing, FaultStyle::ZeroLen, FaultStyle::RejectCrossing, FaultStyle::ShortThenFail, FaultStyle::ZeroLen, FaultStyle::ShortThenFail][k % 7];
+                        acc.count(&format!("writer_fault_style_{style:?}"));
                         let mode = if k % 3 == 0 { Mode::Reader(Sched::All) } else { Mode::Slice };
                         output_side_writer(&bytes, src, to, &d, k, style, &mode, acc);
                         k += step;
@@ -513,7 +518,7 @@ pub fn run(ctx: &Ctx) -> i32 {
             }
         }
     });
-    let rule = format!("{} generated common-model documents; (a) each spelled in one format in turn and damaged at EVERY byte position (<= 200 B; sampled above) by deleting the byte, inserting a stray structural byte, inserting a control / invalid UTF-8 byte, or truncating there, slice and reader alternating, confirmed malformed by the independent reader, judged for the three streaming targets; (b) one unrepresentable construct (null key / sequence key -> JSON, binary -> YAML, null -> TOML, 65..128-bit integer -> MessagePack) planted at a random path (depth <= 6) from every source that can spell it; (c) every third document: the writer fails at EVERY byte of the fault-free output (sampled above 600 B), two fault styles, slice and reader; distinct non-trivial = distinct documents", n);
+    let rule = format!("{} generated common-model documents; (a) each spelled in one format in turn and damaged at EVERY byte position (<= 200 B; sampled above) by deleting the byte, inserting a stray structural byte, inserting a control / invalid UTF-8 byte, or truncating there, slice and reader alternating, confirmed malformed by the independent reader, judged for the three streaming targets; (b) one unrepresentable construct (null key / sequence key -> JSON, binary -> YAML, null -> TOML, 65..128-bit integer -> MessagePack) planted at a random path (depth <= 6) from every source that can spell it; (c) every third document: the writer fails at EVERY byte of the fault-free output (sampled above 600 B), three fault styles (short accept then fail, reject the crossing write, accept nothing more: Ok(0) - whose cause is std's WriteZero), slice and reader; distinct non-trivial = distinct documents", n);
     ev::finish(
         Finish { ctx, level: "fault_enumeration", rule, assumptions: vec!["equality with the message the source crate gives when called directly is NOT demanded (it legitimately differs with the visitor and reader kind)".into(), "reference reasons come from handing the construct / the same failing writer directly to the target crate inside the harness".into()], extra: serde_json::Map::new(), exhaustive: false, min_distinct: 300, must_reach: vec![("input_side_messages_ok".into(), 5000), ("value_reason_present".into(), 1000), ("writer_reason_present".into(), 5000)] },
         acc,
@@ -540,7 +545,11 @@ pub fn replay(v: &Value) -> i32 {
         }
         Some("writer") => {
             let (Some(to), Some(k)) = (c["to"].as_str().and_then(Fmt::parse), c["k"].as_u64()) else { return 2 };
-            let style = if c["style"].as_str() == Some("RejectCrossing") { FaultStyle::RejectCrossing } else { FaultStyle::ShortThenFail };
+            let style = match c["style"].as_str() {
+                Some("RejectCrossing") => FaultStyle::RejectCrossing,
+                Some("ZeroLen") => FaultStyle::ZeroLen,
+                _ => FaultStyle::ShortThenFail,
+            };
             let Ok(doc) = crate::selfcheck::read_back(src, &input) else {
                 println!("cannot re-read input");
                 return 2;
